@@ -7,7 +7,7 @@ use super::sendbody::{send_body_call, send_body_flow};
 use crate::engine::{guarded, pattern, Report, Tier, Violation};
 use crate::refmodel::chunked::decode_strict;
 
-pub const RULE: &str = "chunked: every output length b in 6..=11000 and +-12 around k*10248 (k<=3) x input lengths {1..=64 (thorough 1..=320), 100, 255..257, 1000, 4095..4097, 10239..10241, 20480, 20481, 30000} u {b-6..=b+2}, each pair one real write on a fresh writer (front ends: Flow of a POST, Call, Flow of a DELETE with send-body-despite-method); the same rows for b in 6..=64 u {100,1000,4103,10248,10253} from non-initial states: after an earlier write of {1,3} bytes into a buffer of 0..=12 bytes in the same state, and after two superfluous head writes (buffers {0,4,5,6,4096}) in the state before; sized: b,i in 1..=300, plus fixed-buffer loops with Content-Length around 2^32, 2^33, 2^40, u64::MAX; plus whole-body caller loops with a fixed buffer. distinct = distinct (mode, consumed==input, chunks emitted, hex digits) classes";
+pub const RULE: &str = "chunked: every output length b in 6..=11000 and +-12 around k*10248 (k<=3) x input lengths {1..=64 (thorough 1..=320), 100, 255..257, 1000, 4095..4097, 10239..10241, 20480, 20481, 30000} u {b-6..=b+2}, each pair one real write on a fresh writer (front ends: Flow of a POST, Call, Flow of a DELETE with send-body-despite-method); the same rows for b in 6..=64 u {100,1000,4103,10248,10253} from non-initial states: after an earlier write of {1,3} bytes into a buffer of 0..=12 bytes in the same state, and after two superfluous head writes (buffers {0,4,5,6,4096}) in the state before, and for an HTTP/1.0 GET converted with send-body-despite-method; sized: b,i in 1..=300 (a reduced buffer set also after a refused oversize direct-write report and after a refused oversize write), plus fixed-buffer loops with Content-Length around 2^32, 2^33, 2^40, u64::MAX; plus whole-body caller loops with a fixed buffer. distinct = distinct (mode, consumed==input, chunks emitted, hex digits) classes";
 
 fn bs() -> Vec<usize> {
     let mut v: Vec<usize> = (6..=11000).collect();
@@ -53,6 +53,10 @@ fn write_once(i: usize, b: usize, front: &str, input: &[u8]) -> Result<(usize, S
         } else if let Some(h) = front.strip_prefix("flow+headwrites:") {
             // further SendRequest writes after the head was complete, before entering SendBody
             let mut f = super::sendbody::send_body_flow_extra_head_writes(h.parse::<usize>().unwrap_or(0));
+            f.write(&input[..i], &mut out)
+        } else if front == "flow-despite-http10" {
+            // an HTTP/1.0 GET converted with send_body_despite_method(), no Content-Length: default framing
+            let mut f = super::sendbody::send_body_flow_cfg(&crate::driver::ReqCfg::new("GET", "1.0", "http://a.test/p").despite(true));
             f.write(&input[..i], &mut out)
         } else if front == "flow-despite" {
             let mut f = super::sendbody::send_body_flow_despite("DELETE");
@@ -179,8 +183,28 @@ fn sized_huge(rep: &mut Report) {
 }
 
 fn sized_pair(i: usize, b: usize, input: &[u8]) -> Option<(String, String)> {
+    sized_pair_after(i, b, input, "")
+}
+
+/// `prior`: "" fresh; "refused-direct": an oversize consume_direct_write() was refused before;
+/// "refused-write": an oversize write() was refused before (a refusal must leave the budget alone).
+fn sized_pair_after(i: usize, b: usize, input: &[u8], prior: &str) -> Option<(String, String)> {
     let r = guarded(|| {
         let mut f = send_body_flow(Some(1000));
+        match prior {
+            "refused-direct" => {
+                if f.consume_direct_write(2000).is_ok() {
+                    return Some(("sized-oversize-direct-accepted".to_string(), "consume_direct_write(2000) on a 1000-byte body was accepted".to_string()));
+                }
+            }
+            "refused-write" => {
+                let mut o = vec![0u8; 8];
+                if f.write(&input[..1001], &mut o).is_ok() {
+                    return Some(("sized-oversize-write-accepted".to_string(), "write of 1001 bytes on a 1000-byte body was accepted".to_string()));
+                }
+            }
+            _ => {}
+        }
         let mut out = vec![0u8; b];
         match f.write(&input[..i], &mut out) {
             Err(e) => Some(("write-error".to_string(), format!("sized write({}, {}) failed: {:?}", i, b, e))),
@@ -263,7 +287,8 @@ pub fn run(tier: Tier) -> Report {
     // the same rows from non-initial states (reduced buffer set): after an earlier small write in the
     // same state, and after superfluous head writes in the state before
     let hist_fronts: Vec<String> = [1usize, 3].iter().flat_map(|i0| (0..=12usize).map(move |b0| format!("flow+prior:{}:{}", i0, b0))).chain([0usize, 4, 5, 6, 4096].iter().map(|b| format!("flow+headwrites:{}", b))).collect();
-    let hist_fronts: Vec<&'static str> = hist_fronts.into_iter().map(|s| &*Box::leak(s.into_boxed_str())).collect();
+    let mut hist_fronts: Vec<&'static str> = hist_fronts.into_iter().map(|s| &*Box::leak(s.into_boxed_str())).collect();
+    hist_fronts.push("flow-despite-http10");
     for f in &hist_fronts {
         for b in (6..=64usize).chain([100, 1000, 4103, 10248, 10253]) {
             jobs.push((b, f));
@@ -305,6 +330,14 @@ pub fn run(tier: Tier) -> Report {
                         replay: json!({"kind": "sized", "i": i, "b": b}),
                     });
                 }
+                if b <= 40 || b % 37 == 0 {
+                    for prior in ["refused-direct", "refused-write"] {
+                        rep.evaluations += 1;
+                        if let Some((k, what)) = sized_pair_after(i, b, &input, prior) {
+                            rep.violation(Violation { key: format!("C19:sized:{}:after-{}", k, prior), ord: (b * 1000 + i) as u64, what: format!("{} [after a {} in the same state]", what, prior), replay: json!({"kind": "sized", "i": i, "b": b, "prior": prior}) });
+                        }
+                    }
+                }
             }
             rep.distinct_hash(&"sized");
             rep
@@ -324,6 +357,16 @@ pub fn run(tier: Tier) -> Report {
     for b in [1usize, 2, 7, 100] {
         for l in LOOP_LS {
             loops.push((l, b, false));
+        }
+    }
+    // the whole-body loops once more with the library's logging at level Trace (every buffer is hex-dumped)
+    crate::engine::logging(true);
+    let logged: Vec<(usize, usize, bool, Option<(String, String)>)> = loops.par_iter().filter(|(l, _, _)| *l <= 10_241).map(|&(l, b, ch)| (l, b, ch, body_loop(l, b, ch))).collect();
+    crate::engine::logging(false);
+    for (l, b, ch, fail) in logged {
+        rep.evaluations += 1;
+        if let Some((k, what)) = fail {
+            rep.violation(Violation { key: format!("C19:{}:{}", if ch { "chunked" } else { "sized" }, k), ord: (b * 100_000 + l) as u64, what: format!("{} [library logging at level Trace]", what), replay: json!({"kind": "loop", "l": l, "b": b, "chunked": ch, "logging": true}) });
         }
     }
     let lres: Vec<(usize, usize, bool, Option<(String, String)>)> = loops
@@ -348,7 +391,7 @@ pub fn run(tier: Tier) -> Report {
     }
     rep.sample(json!({"loop": {"body_len": 25000, "buffer_len": 10253, "chunked": true}}));
     rep.guard("some write consumes only part of its input", false);
-    rep.guard("rows from non-initial states evaluated", hist_fronts.len() == 31);
+    rep.guard("rows from non-initial states evaluated", hist_fronts.len() == 32);
     rep.extra("buffer_lengths", json!(bs.len()));
     rep.extra("loops", json!(loops.len()));
     rep
@@ -371,8 +414,13 @@ pub fn replay(v: &Value) -> Result<Option<String>, String> {
             sized_huge(&mut r);
             Ok(r.violations.into_iter().next().map(|(k, (_, v))| format!("[{}] {}", k, v.what)))
         }
-        "sized" => Ok(sized_pair(v["i"].as_u64().ok_or("i")? as usize, v["b"].as_u64().ok_or("b")? as usize, &input).map(|(k, w)| format!("[{}] {}", k, w))),
-        "loop" => Ok(body_loop(v["l"].as_u64().ok_or("l")? as usize, v["b"].as_u64().ok_or("b")? as usize, v["chunked"].as_bool().ok_or("chunked")?).map(|(k, w)| format!("[{}] {}", k, w))),
+        "sized" => Ok(sized_pair_after(v["i"].as_u64().ok_or("i")? as usize, v["b"].as_u64().ok_or("b")? as usize, &input, v["prior"].as_str().unwrap_or("")).map(|(k, w)| format!("[{}] {}", k, w))),
+        "loop" => Ok({
+            if v["logging"].as_bool() == Some(true) {
+                crate::engine::logging(true);
+            }
+            body_loop(v["l"].as_u64().ok_or("l")? as usize, v["b"].as_u64().ok_or("b")? as usize, v["chunked"].as_bool().ok_or("chunked")?).map(|(k, w)| format!("[{}] {}", k, w))
+        }),
         _ => Err("unknown kind".into()),
     }
 }
